@@ -82,6 +82,19 @@ def naturals_worker(chunk, seed, tier):
             if n == 3 and okind == "well":
                 part.sample(case)
             tol = 1e-9 * max(1.0, cond)
+            # the helpers must not modify their arguments, whatever the memory layout of the arrays handed in
+            for layout in ("C", "F"):
+                dm_in = np.asfortranarray(dm.copy()) if layout == "F" else dm.copy()
+                s_in = np.asfortranarray(s.copy()) if layout == "F" else s.copy()
+                try:
+                    derive_naturals(dm_in, s_in)
+                    check_dm(dm_in, s_in, eps=1e9, occ_max=1.0)
+                except Exception:  # noqa: BLE001 (judged below on the C-ordered call)
+                    pass
+                same = np.array_equal(dm_in, dm) and np.array_equal(s_in, s)
+                part.outcome("arguments-unchanged", f"{layout}-order:unchanged" if same else f"{layout}-order:MODIFIED")
+                if not same:
+                    part.violation("naturals", f"naturals:argument-modified:{layout}-order", {**case, "layout": layout}, "derive_naturals / check_dm changed the density or overlap matrix passed in")
             try:
                 coeffs, occs = derive_naturals(dm, s)
             except Exception as exc:  # noqa: BLE001
@@ -222,6 +235,14 @@ def four_index_worker(chunk, seed, tier):
             got = {tuple(int(t) for t in idx) for idx in np.argwhere(arr != sentinel)}
             vals_ok = all(arr[idx] == val for idx in got)
             ok = got == want and vals_ok
+            # an exactly zero value is a value like any other: it must overwrite what the eight positions held
+            for zero in (0.0, -0.0):
+                arr0 = np.full((n, n, n, n), sentinel)
+                set_four_index_element(arr0, *q, zero)
+                got0 = {tuple(int(t) for t in idx) for idx in np.argwhere(arr0 != sentinel)}
+                if got0 != want or any(arr0[idx] != 0.0 for idx in got0):
+                    ok = False
+                    got = got0
             part.nontrivial(repr((n, tuple(sorted(want)))))
             part.outcome("four-index", f"orbit-size-{len(want)}" + ("" if ok else "-WRONG"))
             if n == 3 and q == (0, 1, 2, 1):
@@ -312,7 +333,7 @@ def run(ctx):
     ctx.exhaustive = True
     ctx.rule = (
         f"full product: derive_naturals/check_dm for n=1..{nmax} x 11 spectrum patterns (incl. values at -eps+-d, occ_max+eps+-d, d=eps/1000) x 3 overlap kinds x "
-        f"{3 + ctx.thorough} (eps, occ_max) settings; volume for every 1/2/3-subset of 6 vectors x all orders x all sign patterns; set_four_index_element for all "
+        f"{3 + ctx.thorough} (eps, occ_max) settings; volume for every 1/2/3-subset of 6 vectors x all orders x all sign patterns; set_four_index_element (a distinct value, 0.0 and -0.0 onto a sentinel-filled array) for all "
         f"index quadruples n<=" + str(nq) + "; strtobool for every letter-case variant of the 12 documented words and every single-character insert/delete/substitute over 'aey1 0n'. "
         "A case is distinct by its parameters (four-index: by symmetry orbit)."
     )
